@@ -6,7 +6,9 @@ Rules
         the relationship machinery (generated "rId%d" or an existing xsd:ID of a relationship), never a caller string
   R2.3  part construction discipline: every part constructed outside the loader takes its part name from an allocator
         (or a guarded singleton name) and is related to a source on every path
-  R2.4  drop_rel pairing: each drop_rel(rId) site also removes the element/attribute the rId came from
+  R2.4  drop_rel pairing: each drop_rel(rId) site also removes the element/attribute the rId came from, and does so after
+        drop_rel has counted the references (XmlPart.drop_rel keeps a relationship that has two or more references,
+        counting the one being removed); the counting rule itself is checked (`_rel_ref_count(rId) < 2`)
   R2.5  content-type <-> part-class registry: the content type a part class is constructed with maps back to that class
   R2.6  writer closure: content types and members are produced from the same part sequence; rels items are written for
         every part that has relationships; package rels are written
@@ -465,12 +467,35 @@ def _r24(ctx, prog, M, T):
                 src = ast.unparse(f.node)
                 removes = [x for x in walk_own(f.node) if isinstance(x, ast.Call) and isinstance(x.func, ast.Attribute)
                            and (x.func.attr in ("remove", "_remove_hlinkClick", "_remove_hlinkHover") or x.func.attr.startswith("_remove_"))]
-                if removes:
-                    ctx.ok("R2.4", key, sample={"site": "%s:%d" % (f.file, c.lineno), "removal": ast.unparse(removes[0])[:60]})
+                early = [x for x in removes if (x.lineno, x.col_offset) < (c.lineno, c.col_offset)]
+                if removes and early:
+                    # XmlPart.drop_rel pops the relationship only when fewer than two references remain *including the one
+                    # being removed*: the reference must still be in the XML when drop_rel counts
+                    ctx.violation("R2.4", key + ":order", "the referencing element is removed (`%s`, line %d) before drop_rel() counts "
+                                  "the references: a relationship shared with one other reference is dropped and that reference is "
+                                  "left dangling" % (ast.unparse(early[0])[:50], early[0].lineno), file=f.file, line=c.lineno)
+                elif removes:
+                    ctx.ok("R2.4", key, sample={"site": "%s:%d" % (f.file, c.lineno), "removal": ast.unparse(removes[0])[:60],
+                                                "order": "drop_rel first, then remove the reference"})
                 else:
                     ctx.violation("R2.4", key, "relationship is dropped but the referencing element/attribute is not removed in this "
                                   "function", file=f.file, line=c.lineno)
     ctx.count("drop_rel_sites", n)
+    xp = prog.cls("pptx.opc.package", "XmlPart")
+    dr = xp.methods.get("drop_rel")
+    good = False
+    if dr is not None:
+        for st in dr.node.body:
+            if isinstance(st, ast.If) and isinstance(st.test, ast.Compare) and isinstance(st.test.ops[0], ast.Lt) \
+                    and isinstance(st.test.left, ast.Call) and dotted(st.test.left.func) == "self._rel_ref_count" \
+                    and prog.const(st.test.comparators[0], dr.module) == 2 \
+                    and any(isinstance(x, ast.Call) and dotted(x.func) == "self._rels.pop" for b in st.body for x in ast.walk(b)):
+                good = True
+    if good:
+        ctx.ok("R2.4", "XmlPart.drop_rel:count", sample={"rule": "pop only when _rel_ref_count(rId) < 2 (the reference being removed is still counted)"})
+    else:
+        ctx.violation("R2.4", "XmlPart.drop_rel:count", "drop_rel does not keep relationships that are still referenced elsewhere",
+                      file=xp.file, line=dr.line if dr else xp.line)
 
 
 # -- R2.5 ---------------------------------------------------------------------------------------------
